@@ -77,6 +77,7 @@ def cases(tier, seed):
             for scale in ('linear', 'log', 'logicle'):
                 yield dict(res=rs, state=st, scale=scale, tier=tier)
                 yield dict(res=rs, state=st, scale=scale, tier=tier, history='after-log')
+                yield dict(res=rs, state=st, scale=scale, tier=tier, history='empty')
             yield dict(res=rs, state=st, scale='lists', tier=tier)
 
 
@@ -176,6 +177,12 @@ def run_case(c):
                 res.ok('refused', True)
             res.sample({'state': st, 'resolutions': rs, 'scale': 'per-channel lists', 'channels': [[0, 1, 2], ['CH3', 'CH1', 'CH2'], [2, 'CH1'], None]})
             return res
+        if c.get('history') == 'empty':
+            # a sample without events (everything gated out): the edges depend on range and resolution only
+            d_full = d
+            d = d[:0]
+            if st == 'float-neg':
+                d._c19_min = [0, 0, 0]
         if c.get('history') == 'after-log':
             # the same questions after log-scale bins have been asked for on the same object (answers must not depend on it)
             for j in range(3):
@@ -191,7 +198,7 @@ def run_case(c):
                 n = r if nb is None else nb
                 for kw in overrides:
                     what = 'hist_bins(%s, channel %d (resolution %d), nbins=%r, scale=%r%s)' % (st, j, r, nb, scale, ''.join(', %s=%r' % kv for kv in kw.items()))
-                    sig = '%s:%s%s' % (scale, st, ':after-log' if c.get('history') else '')
+                    sig = '%s:%s%s' % (scale, st, (':' + c['history']) if c.get('history') else '')
                     try:
                         e = d.hist_bins(j, nb, scale, **kw)
                     except Exception as ex:
